@@ -5,8 +5,22 @@ Model of the sparse backward liveness analysis (C25):
 `set_to_exit_state`), `xdsl/analysis/sparse_analysis.py` (`SparseBackwardDataFlowAnalysis.initialize /
 visit_operation / get_lattice_element_for`, `PropagatingLattice.on_update`) and
 `xdsl/analysis/dataflow.py` (`DataFlowSolver.initialize_and_run / enqueue / propagate_if_changed`,
-`AnalysisState.on_update`), for supported IR: every op sits in an executable block and has neither
-regions nor successors (those raise `NotImplementedError` in the real code and are outside C25).
+`AnalysisState.on_update`) together with the `Executable` gating of
+`xdsl/analysis/dead_code_analysis.py` (`Executable.set_to_live / on_update`,
+`DeadCodeAnalysis.initialize`), for supported IR: ops have neither regions nor successors (those
+raise `NotImplementedError` in the real code and are outside C25).
+
+Executability.  `visit_operation` returns at once for an op whose parent block's `Executable` state
+is not live.  In the real code a block becomes executable only during initialisation:
+`DeadCodeAnalysis.initialize` marks the entry block of the top-level op (nothing else ever — its
+`visit` is never enqueued), and the test-suite idiom sets `.live = True` by hand.  What matters is
+whether this happens before or after `LivenessAnalysis.initialize` (the load order of the analyses):
+* before (`Prog.pre`): `block_content_subscribers` is still empty, nothing is enqueued, the
+  initial backward walk visits the ops of the block;
+* after (`Prog.post`): the walk skipped every op of the block (no lattice was touched, nothing was
+  registered); `Executable.on_update` enqueues `(before(op), liveness)` for every op of the block in
+  forward order (`enable`), and the worklist loop visits them;
+* never: the ops are skipped for good.
 
 Values and ops are dense indices handed out by the harness (program order).  One analysis is loaded
 that ever enqueues work (`LivenessAnalysis`), so a work item `(ProgramPoint.before(op), analysis)`
@@ -29,6 +43,8 @@ structure Op where
   results  : List Nat
   /-- `would_be_trivially_dead(op)` -/
   wbd      : Bool
+  /-- id of the parent block -/
+  blk      : Nat := 0
 deriving Repr, Inhabited
 
 structure Prog where
@@ -40,6 +56,10 @@ structure Prog where
   seeds : List Nat := []
   /-- values handed to `set_to_exit_state` after the initialisation walk -/
   exits : List Nat := []
+  /-- blocks whose `Executable` state is live before `LivenessAnalysis.initialize` runs -/
+  pre   : List Nat := []
+  /-- blocks marked live (`set_to_live` + `on_update`) after `LivenessAnalysis.initialize`, in order -/
+  post  : List Nat := []
 deriving Repr
 
 structure St where
@@ -47,7 +67,12 @@ structure St where
   reg   : List Bool
   wl    : List Nat
   trace : List Nat
+  /-- blocks whose `Executable` state is live -/
+  exec  : List Nat
 deriving Repr
+
+/-- `get_or_create_state(at_start_of_block(b), Executable).live` -/
+def isExec (st : St) (b : Nat) : Bool := st.exec.contains b
 
 def isLive (st : St) (v : Nat) : Bool := st.live.getD v false
 
@@ -77,6 +102,7 @@ def visit (p : Prog) (j : Nat) (st : St) : St :=
   | none => st
   | some op =>
     if op.operands.isEmpty then st                       -- `if not op.operands: return`
+    else if !isExec st op.blk then st                    -- parent block not executable: do nothing
     else
       -- result lattices register `before(op)` as dependent
       let st0 := { st with reg := st.reg.set j true }
@@ -89,12 +115,29 @@ def init0 (p : Prog) : St :=
   { live := p.seeds.foldl (fun l v => l.set v true) (List.replicate p.nvals false)
     reg := List.replicate p.ops.length false
     wl := []
-    trace := [] }
+    trace := []
+    exec := p.pre }
+
+/-- the ops of block `b`, in program order (`for op in block.ops`) -/
+def blockOps (p : Prog) (b : Nat) : List Nat :=
+  (List.range p.ops.length).filter fun i =>
+    match p.ops[i]? with
+    | some op => op.blk == b
+    | none => false
+
+/-- `propagate_if_changed(executable, executable.set_to_live())` once `LivenessAnalysis` has
+subscribed to the block: no change if already live; else `Executable.on_update` enqueues every op
+of the block for the subscribed analysis. -/
+def enable (p : Prog) (st : St) (b : Nat) : St :=
+  if isExec st b then st
+  else { st with exec := b :: st.exec, wl := st.wl ++ blockOps p b }
 
 /-- `analysis.initialize(op)`: the stack walk visits the ops of a block last-to-first (and later
-functions before earlier ones), then the boundary values are set to their exit state. -/
+functions before earlier ones), then the boundary values are set to their exit state; afterwards the
+analyses loaded later are initialised (`post`: blocks they mark executable). -/
 def init (p : Prog) : St :=
-  markAll p ((List.range p.ops.length).reverse.foldl (fun st j => visit p j st) (init0 p)) p.exits
+  p.post.foldl (enable p)
+    (markAll p ((List.range p.ops.length).reverse.foldl (fun st j => visit p j st) (init0 p)) p.exits)
 
 abbrev Sched := Nat → List Nat → Nat
 
@@ -116,8 +159,9 @@ def solveSt (p : Prog) (pick : Sched) : St := run p pick (fuel p (init p)) 0 (in
 /-- the liveness of every value after `initialize_and_run` under scheduler `pick` -/
 def solve (p : Prog) (pick : Sched) : List Bool := (solveSt p pick).live
 
-/-! Line protocol:
-`reset <nvals>` · `op <wbd 0|1> <#operands> <operands…> <results…>` · `seed <v>` · `exit <v>` ·
+/-! Line protocol (state: program under construction and the block id given to the next ops):
+`reset <nvals>` · `blk <b>` · `op <wbd 0|1> <#operands> <operands…> <results…>` · `seed <v>` ·
+`exit <v>` · `pre <b>` · `post <b>` ·
 `solve <i₀ i₁ …>` (index chosen at iteration k, 0 when the list is exhausted; FIFO = `solve`). -/
 
 def natList (ws : List String) : Option (List Nat) := ws.mapM String.toNat?
@@ -126,33 +170,47 @@ def showBits (l : List Bool) : String := String.join (l.map fun b => if b then "
 
 def showNats (l : List Nat) : String := ",".intercalate (l.map toString)
 
-def lineStep (p : Prog) (line : String) : Prog × String :=
+def lineStep (pc : Prog × Nat) (line : String) : (Prog × Nat) × String :=
+  let (p, cur) := pc
   match words line with
   | ["reset", n] =>
     match n.toNat? with
-    | some n => ({ nvals := n }, "ok")
-    | none => (p, "bad-op")
+    | some n => (({ nvals := n }, 0), "ok")
+    | none => (pc, "bad-op")
+  | ["blk", b] =>
+    match b.toNat? with
+    | some b => ((p, b), "ok")
+    | none => (pc, "bad-op")
   | "op" :: w :: n :: rest =>
     match w.toNat?, n.toNat?, natList rest with
     | some w, some n, some vs =>
       if w ≤ 1 ∧ n ≤ vs.length then
-        ({ p with ops := p.ops ++ [{ operands := vs.take n, results := vs.drop n, wbd := w == 1 }] }, "ok")
-      else (p, "bad-op")
-    | _, _, _ => (p, "bad-op")
+        (({ p with ops := p.ops ++
+            [{ operands := vs.take n, results := vs.drop n, wbd := w == 1, blk := cur }] }, cur), "ok")
+      else (pc, "bad-op")
+    | _, _, _ => (pc, "bad-op")
   | ["seed", v] =>
     match v.toNat? with
-    | some v => ({ p with seeds := p.seeds ++ [v] }, "ok")
-    | none => (p, "bad-op")
+    | some v => (({ p with seeds := p.seeds ++ [v] }, cur), "ok")
+    | none => (pc, "bad-op")
   | ["exit", v] =>
     match v.toNat? with
-    | some v => ({ p with exits := p.exits ++ [v] }, "ok")
-    | none => (p, "bad-op")
+    | some v => (({ p with exits := p.exits ++ [v] }, cur), "ok")
+    | none => (pc, "bad-op")
+  | ["pre", b] =>
+    match b.toNat? with
+    | some b => (({ p with pre := p.pre ++ [b] }, cur), "ok")
+    | none => (pc, "bad-op")
+  | ["post", b] =>
+    match b.toNat? with
+    | some b => (({ p with post := p.post ++ [b] }, cur), "ok")
+    | none => (pc, "bad-op")
   | "solve" :: is =>
     match natList is with
     | some sched =>
       let st := solveSt p (fun k _ => sched.getD k 0)
-      (p, s!"live={showBits st.live} trace={showNats st.trace.reverse} rest={st.wl.length}")
-    | none => (p, "bad-op")
-  | _ => (p, "bad-op")
+      (pc, s!"live={showBits st.live} trace={showNats st.trace.reverse} rest={st.wl.length}")
+    | none => (pc, "bad-op")
+  | _ => (pc, "bad-op")
 
 end Xdsl.Liveness
